@@ -114,7 +114,8 @@ def foreignPath (ln : Bytes) : Bool :=
   let (_, rest) := exLoc ln
   let (cmd, rest) := exCmd rest
   let c := cmd.filter (· != 33)
-  (c == strOf "w" || c == strOf "wq" || c == strOf "x" || c == strOf "e" || c == strOf "ew" || c == strOf "r" || c == strOf "xa" || c == strOf "wa")
+  (c == strOf "w" || c == strOf "wq" || c == strOf "x" || c == strOf "e" || c == strOf "ew" || c == strOf "r" || c == strOf "xa" || c == strOf "wa"
+    || c == strOf "write" || c == strOf "xit" || c == strOf "edit" || c == strOf "read")
     && (rest.contains 47 || rest.length > 200 || (rest.dropWhile isSpaceC).any (fun ch => !(isAlphaC ch || isDigitC ch || ch == 32 || ch == 35 || ch == 37)))
 
 def judge (_mode : Nat) (kv : KV) : Verdict :=
